@@ -15,7 +15,7 @@ func init() {
 			"the consumer returns nil only for an empty queue, waits for reserved-but-unpublished slots, clears a slot before advancing, follows the jump marker; every slot access is atomic; the cache pops only under the eviction lock and never drops a task it could not push. "+
 			"NOT decided: exactly-once / per-producer FIFO delivery over all interleavings.",
 		[]string{"sync/atomic operations are sequentially consistent (Go memory model)", "there is a single consumer (decided separately by C16.single)"},
-		ruleC16Reserve, ruleC16Full, ruleC16Resize, ruleC16Pop, ruleC16Atomic, ruleC16Single, ruleC14After)
+		ruleC16Reserve, ruleC16Full, ruleC16Resize, ruleC16Pop, ruleC16Atomic, ruleC16Single, ruleC14After, ruleC16Init, ruleC16Order)
 }
 
 const queuePkg = "internal/deque/queue"
@@ -639,8 +639,78 @@ func ruleC16Single(cx *Ctx) {
 	for _, fn := range cx.P.FuncsOfPkg("") {
 		allInstrs(fn, func(in ssa.Instruction) {
 			if callOnField(in, wb, tryPop) {
-				cx.R.Check(lc.heldAt(in), rule, funcName(fn), "TryPop", cx.P.where(in), "the write buffer is consumed under the eviction lock: "+lc.explain(in))
+				cx.R.Check(lc.heldAtCtx(in), rule, funcName(fn), "TryPop", cx.P.where(in), "the write buffer is consumed under the eviction lock: "+lc.explain(in))
 			}
 		})
 	}
+}
+
+// ruleC16Init: the queue's capacity fields are derived from power-of-two rounded capacities.
+func ruleC16Init(cx *Ctx) {
+	const rule = "C16.init"
+	cx.R.Rule(rule, 3, "NewMPSC derives maxQueueCapacity, the initial masks/limit and the first buffer length from the power-of-two rounded capacities (the index arithmetic and the 'last chunk' test rely on it)")
+	fn := cx.need(rule, queuePkg, "", "NewMPSC")
+	mq := cx.needField(rule, queuePkg, "MPSC", "maxQueueCapacity")
+	if fn == nil || mq == nil {
+		return
+	}
+	name := funcName(fn)
+	p2 := func(param string) *Term { return mk("call:RoundUpPowerOf2", tVar(param)) }
+	wantMax := mk("<<", p2("param1"), tConst(1)).String()
+	wantMask := mk("<<", mk("-", p2("param0"), tConst(1)), tConst(1)).String()
+	found := false
+	allInstrs(fn, func(in ssa.Instruction) {
+		if st, ok := in.(*ssa.Store); ok && sameField(fieldOf(st.Addr), mq) {
+			found = true
+			got := newTermBuilder().of(st.Val).String()
+			cx.R.Check(got == wantMax, rule, name, "maxQueueCapacity", cx.P.where(st), "maxQueueCapacity = RoundUpPowerOf2(maxCapacity) << 1 (got "+got+")")
+		}
+	})
+	if !found {
+		cx.R.Violate(rule, name, "maxQueueCapacity", cx.P.Pos(fn.Pos()), "NOT SATISFIED: NewMPSC does not set maxQueueCapacity")
+	}
+	masks := 0
+	for _, f := range []string{"consumerMask", "producerMask", "producerLimit"} {
+		fv := cx.P.Field(queuePkg, "MPSC", f)
+		allInstrs(fn, func(in ssa.Instruction) {
+			if atomicOp(in, fv, "Store") {
+				got := newTermBuilder().of(callArgs(in)[0]).String()
+				masks++
+				cx.R.Check(got == wantMask, rule, name, f, cx.P.where(in), f+" = (RoundUpPowerOf2(initialCapacity) - 1) << 1 (got "+got+")")
+			}
+		})
+	}
+	cx.R.Check(masks == 3, rule, name, "masks initialised", cx.P.Pos(fn.Pos()), "consumerMask, producerMask and producerLimit are initialised")
+	// the cache passes constants / power-of-two derived capacities
+	okLen := false
+	nb := cx.P.Func(queuePkg, "", "newBuffer")
+	allInstrs(fn, func(in ssa.Instruction) {
+		if nb != nil && isCallTo(in, nb) {
+			got := newTermBuilder().of(callArgs(in)[0]).String()
+			okLen = got == mk("+", p2("param0"), tConst(1)).String()
+		}
+	})
+	cx.R.Check(okLen, rule, name, "first buffer length", cx.P.Pos(fn.Pos()), "the first buffer has RoundUpPowerOf2(initialCapacity)+1 slots (one link slot)")
+}
+
+// ruleC16Order: producer order across the caller-runs fallback.
+func ruleC16Order(cx *Ctx) {
+	const rule = "C16.order"
+	cx.R.Rule(rule, 1, "maintenance replays the queued events before the task of the caller that fell back to running maintenance itself (that task is its producer's newest event)")
+	maint := cx.need(rule, "", "cache", "maintenance")
+	dwb := cx.need(rule, "", "cache", "drainWriteBuffer")
+	rt := cx.need(rule, "", "cache", "runTask")
+	if maint == nil || dwb == nil || rt == nil {
+		return
+	}
+	var d, r ssa.Instruction
+	allInstrs(maint, func(in ssa.Instruction) {
+		if isCallTo(in, dwb) {
+			d = in
+		}
+		if isCallTo(in, rt) {
+			r = in
+		}
+	})
+	cx.R.Check(d != nil && r != nil && instrDominates(d, r), rule, funcName(maint), "drain ≺ own task", cx.P.Pos(maint.Pos()), "drainWriteBuffer precedes runTask(t): events of one producer are consumed in submission order")
 }
